@@ -1314,10 +1314,9 @@ class DiameterMessage:
         #: DiameterMessage attribute name in order to not overwritting the 
         #: previous one. 
         if avp_key in self.__dict__:
-            index = 0
-            for key in self.__dict__.keys():
-                if avp_key in key:
-                    index += 1
+            index = 1
+            while f"{avp_key}__{index}" in self.__dict__:
+                index += 1
             avp_key = f"{avp_key}__{index}"
 
         #: Updates DiameterMessage attributes.
@@ -1378,8 +1377,12 @@ class DiameterMessage:
 
         avp = self.__dict__[avp_key]
 
-        #: Updates DiameterMessage attributes.
-        self._avps.remove(avp)
+        #: Updates DiameterMessage attributes. The DiameterAVP object bound to 
+        #: the name is removed (not another one with the same content).
+        for index, _avp in enumerate(self._avps):
+            if _avp is avp:
+                del self._avps[index]
+                break
         self.__dict__.pop(avp_key, None)
 
         #: It updates the DiameterMessage object length attribute with the 
